@@ -49,6 +49,22 @@ theorem render_idempotent : RenderIdempotentBelowMaxLine idemAccepts := by
   obtain ⟨h1, h2, h3⟩ := tokenize_wf src toks comments ht hl
   exact render_idempotent_stream toks comments out h1 h2 hl h3 hnum hr hnl
 
+/-- the hypotheses are closed under formatting: what Tokenize reads back from the output satisfies
+`idemAccepts` again (so the theorem applies to the output of the output, and so on). -/
+theorem render_idempotent_closed (src out : Bytes) (toks : List Tok) (comments : Array Bytes)
+    (ht : tokenize src = some (toks, comments)) (hacc : idemAccepts toks)
+    (hr : render toks comments = some out) (hnl : out.count 10 < maxLine) :
+    ∃ toks' comments', tokenize out = some (toks', comments') ∧ idemAccepts toks' := by
+  obtain ⟨hl, hnum⟩ := hacc
+  obtain ⟨h1, h2, h3⟩ := tokenize_wf src toks comments ht hl
+  obtain ⟨toks', comments', htok, hl'⟩ := render_output_linesOK toks comments out h1 h2 hl hr hnl
+  obtain ⟨toks'', comments'', htok2, hn'⟩ := render_output_numColonFree toks comments out h1 h2 hl h3 hnum hr hnl
+  rw [htok] at htok2
+  have e := Option.some.inj htok2
+  simp only [Prod.mk.injEq] at e
+  obtain ⟨rfl, rfl⟩ := e
+  exact ⟨toks', comments', htok, hl', hn'⟩
+
 /-- the same in terms of `fmt` = Tokenize + Render (wuffsfmt without the parse gate): if `fmt src`
 is `out`, then `fmt out` is `out`. -/
 theorem fmt_idempotent (src out : Bytes) (toks : List Tok) (comments : Array Bytes)
